@@ -1,11 +1,13 @@
 import Driver.Loop
 import Driver.C01
+import Driver.C02
 open Kv
 
 /-- full driver: regenerated model + monitor -/
 def dispatch (prop : String) (l : Line) : String :=
   match prop with
   | "C01" => Drv.C01.step l
+  | "C02" => Drv.C02.step l
   | _ => "bad-op"
 
 def main : IO Unit := driverMain dispatch
